@@ -844,3 +844,15 @@ Proof.
   - unfold codon_at. split; [cbn; lia|]. split; reflexivity.
   - vm_compute. intros [].
 Qed.
+
+(* the default codon words are custom words in the sense of words_ok, for every safe gap set: the custom-codon theorems
+   (exact result of every mode, is_orf_x) therefore cover the default settings under every gap option *)
+Lemma default_words_ok g : gap_safe g = true -> words_ok g START_WORDS = true /\ words_ok g STOP_WORDS = true.
+Proof.
+  intros S. destruct (default_clean g S) as [C1 C2].
+  assert (K : forall ws, clean g ws -> forallb (fun w => negb (is_nil w) && forallb is_alpha w) ws = true -> words_ok g ws = true).
+  { intros ws C H. unfold words_ok. rewrite forallb_forall in *. intros w Hw. specialize (H w Hw). apply andb_prop in H.
+    destruct H as [H1 H2]. unfold word_ok. rewrite H1. cbn [andb]. rewrite forallb_forall in *. intros c Hc.
+    rewrite (H2 c Hc). destruct (C w c Hw Hc) as [G _]. rewrite G. reflexivity. }
+  split; apply K; auto.
+Qed.
